@@ -878,6 +878,22 @@ class SymbolTable():
                 f"Cannot merge {other_table.view()} with {self.view()} due to "
                 f"unresolvable name clashes.") from err
 
+        # A symbol that is to be merged cannot be imported from a Container
+        # that is to be skipped unless that Container is already known here.
+        for sym in other_table.symbols:
+            if sym in symbols_to_skip or not sym.is_import:
+                continue
+            csym = sym.interface.container_symbol
+            if csym in symbols_to_skip:
+                try:
+                    self.lookup(csym.name)
+                except KeyError as err:
+                    raise SymbolError(
+                        f"Cannot merge symbol '{sym.name}' because the "
+                        f"Container '{csym.name}' from which it is imported "
+                        f"is in 'symbols_to_skip' and is not in scope in the "
+                        f"receiving table.") from err
+
         # Deal with any Container symbols first.
         self._add_container_symbols_from_table(
             other_table, symbols_to_skip=symbols_to_skip)
